@@ -13,7 +13,8 @@ LEVEL = "exploration"
 TECHNIQUE = "reference-model monitor: random inheritance hierarchies rendered by the engine and by an independent block resolver"
 RULE = ("random inheritance chains (depth 1-4, 1-5 block names, nested blocks, super / super.super / "
         "self calls, scoped blocks in loops, required blocks, conditional and dynamic extends, "
-        "content outside blocks) with unique text markers, rendered from a DictLoader (sync and async) "
+        "content outside blocks) with unique text markers, rendered from a DictLoader (sync, async, and "
+        "by an Environment subclass overriding join_path with all names relative to a directory) "
         "and compared with vt.model.interp; every third hierarchy is rendered again with HTML "
         "metacharacters in the data and escaping switched on locally ({% autoescape true %} inside "
         "every block and around top-level runs, environment autoescape off): unescaped once it "
@@ -31,20 +32,46 @@ FLOORS = {
               "counters": {"compares": 3000, "uses_super": 300, "uses_self": 100,
                            "uses_scoped": 100, "uses_required": 50, "required_error": 10,
                            "uses_scoped_reads_loop": 50, "uses_block_in_toplevel_if": 100,
-                           "local_autoescape_compares": 500, "local_autoescape_super_or_self_with_entities": 100}},
+                           "local_autoescape_compares": 500, "local_autoescape_super_or_self_with_entities": 100,
+                           "join_path_environment_compares": 800}},
     "thorough": {"evaluations": 60000, "distinct": 2000,
                  "counters": {"compares": 60000, "uses_super": 6000, "uses_self": 2000,
                               "uses_scoped": 2000, "uses_required": 1000, "required_error": 200,
                               "uses_scoped_reads_loop": 1000, "uses_block_in_toplevel_if": 2000,
                               "local_autoescape_compares": 10000,
-                              "local_autoescape_super_or_self_with_entities": 2000}},
+                              "local_autoescape_super_or_self_with_entities": 2000,
+                              "join_path_environment_compares": 16000}},
 }
 
 
-def engine_render(templates, leaf, data, is_async):
+_relenv = None
+
+
+def rel_env_class():
+    """The documented join_path hook: template names are relative to the referring template."""
+    global _relenv
+    if _relenv is None:
+        import posixpath
+
+        import jinja2
+
+        class RelEnvironment(jinja2.Environment):
+            def join_path(self, template, parent):
+                return posixpath.join(posixpath.dirname(parent), template)
+        _relenv = RelEnvironment
+    return _relenv
+
+
+def engine_render(templates, leaf, data, is_async, relative=False):
     import jinja2
 
     srcs = {n: jast.ps(b) for n, b in templates.items()}
+    if relative:
+        # the same sources stored under sec/<name>; every extends / include name inside them is
+        # only right after joining it with the referring template's directory
+        env = rel_env_class()(loader=jinja2.DictLoader({"sec/" + n: s for n, s in srcs.items()}),
+                              enable_async=is_async)
+        return util.capture(lambda: env.get_template("sec/" + leaf).render(**data)), srcs
     env = jinja2.Environment(loader=jinja2.DictLoader(srcs), enable_async=is_async)
     return util.capture(lambda: env.get_template(leaf).render(**data)), srcs
 
@@ -52,10 +79,12 @@ def engine_render(templates, leaf, data, is_async):
 def check(ctx, templates, leaf, data):
     it = M.Interp(templates)
     mo = util.capture(lambda: it.render(leaf, data))
-    for is_async in (False, True):
-        eo, srcs = engine_render(templates, leaf, data, is_async)
+    for is_async, relative in ((False, False), (True, False), (False, True)):
+        eo, srcs = engine_render(templates, leaf, data, is_async, relative)
         ctx.ev()
         ctx.count("compares")
+        if relative:
+            ctx.count("join_path_environment_compares")
         bad = None
         if mo.ok and eo.ok:
             if mo.value != eo.value:
@@ -79,7 +108,7 @@ def check(ctx, templates, leaf, data):
                     if st[0] == "extends":
                         kinds.append("extends-" + st[1][0])
                 jast.walk_stmts(b, fn)
-            key = "inherit:" + ("async:" if is_async and False else "") + "+".join(sorted(set(kinds)))
+            key = "inherit:" + ("join_path-environment:" if relative else "") + "+".join(sorted(set(kinds)))
             ctx.violation(key, f"{bad} | templates={srcs} leaf={leaf} async={is_async}",
                           {"templates": templates, "leaf": leaf, "data": data})
             return
